@@ -19,18 +19,26 @@ PROOF = "Gallia.Proofs.C09"
 DRIVER = "c09"
 ORACLE = False
 ASSUMPTIONS = [
-    "ECU class: answers to DiagnosticSessionControl depend only on the current session (a graph `g`) and on whether the "
-    "request comes right after the requests of the ECU class' set_session_pre hook (a second graph `gh`, equal to `g` for the "
-    "base ECU class); only a positive answer changes the session; a positive ECUReset re-enters session 1; hook requests "
-    "are answered (negatively) and do not change the session",
+    "exactness (scan_exact*, scan_complete*) is claimed for ECUs that have a session graph: GraphLike stateful ECUs (reply to `10 u` "
+    "and the session afterwards depend on the current session only, whatever the inner state, the history and the timing; "
+    "proved to be simulated by the graph model: scan_simulates_graph) and, with an OEM ECU class whose session hooks send "
+    "requests, the graph ECU with a second graph `gh` for the hooked attempt (the stateful version of this one is tied to the "
+    "graph model by the twin check of the harness, not by a theorem)",
+    "for ECUs that are not graph-like only what is stated is claimed: wire alphabet, skip list and request bound for ANY ECU "
+    "(requests_only_dsc_reset_ping_hooks, skip_not_requested_any, requests_bounded); security-locked transitions: exactly the "
+    "sessions reachable without unlocking (scan_exact_locked_subgraph); ResponsePending in front of real answers: transparent "
+    "(scan_pending_transparent); S3 session timeout: completeness and the reported stack can fail (witness theorems), the general "
+    "soundness statement `every reported session is reachable in the graph` is checked by the tie only; sporadic "
+    "busyRepeatRequest / lost requests within max_retry per request: `same report as without faults` is checked by the tie only",
     "after an accepted ECUReset the ECU leaves a number of pings unanswered (boot phase) that fits into wait_for_ecu's "
-    "timeout; afterwards it answers every ping",
-    "NRCs generated are members of UDSErrorCodes other than responsePending (0x78); the pending loop is C04's subject "
-    "(its transparency above the client is proved for the scanners of C10: pending_transparent)",
+    "timeout (pingBudget = pings sent at 0.5 s, 1.5 s, ... before the timeout); afterwards it answers every ping",
+    "fewer than 119 ResponsePending frames per request (MAX_N_PENDING, C04's subject); client timing as in UDSClient: timeout "
+    "2 s, retry_wait 0.2 s * 2^i, pending loop gives up after 40 * 0.5 s, pings every 0.5 s with 0.5 s timeout; the scanner's "
+    "--sleep is 0",
     "completeness is claimed for runs that do not exit with status 1; every ECU whose sessions can all re-enter the "
     "default session (ISO 14229-1: `10 01` is mandatory) is proved to be such a run",
-    "OEM hooks are represented by the list of 2-byte requests they send (send_raw, reply ignored); with the base ECU class "
-    "--with-hooks repeats the request once on conditionsNotCorrect",
+    "OEM hooks are represented by the list of 2-byte requests they send (send_raw through request_unsafe, reply ignored, an "
+    "unanswered one raises MissingResponse); with the base ECU class --with-hooks repeats the request once on conditionsNotCorrect",
 ]
 
 NRCS = [0x10, 0x11, 0x13, 0x22, 0x22, 0x24, 0x31, 0x33, 0x33, 0x7E, 0x7E, 0x7F, 0x21]
@@ -110,8 +118,8 @@ def _load_impl():
                     self.hooked_for = data[1] & 0x7F
                 edges = self.edges_h if (self.hooked and self.pre) else self.edges
                 r = self._answer(sid, edges.get((self.cur, data[1] & 0x7F), "n18"))
-                if r is not None:
-                    self.hooked = False   # an unanswered hooked attempt is retransmitted under the same conditions
+                if r is not None and not (isinstance(r, bytes) and r[2] == 0x21):
+                    self.hooked = False   # an unanswered / busy hooked attempt is retransmitted under the same conditions
                 if r == "pos":
                     self.cur = data[1] & 0x7F
                     r = bytes([0x50, data[1], 0x00, 0x32, 0x01, 0xF4])
@@ -141,6 +149,87 @@ def _load_impl():
                 raise asyncio.TimeoutError()
             r, self.pending = self.pending, None
             return r
+
+    class StatefulTransport(GraphTransport, scheme="stateful"):
+        """stateful ECU families of Model/SessionScanS.lean: S3 timer (virtual time / request count), security-locked edges,
+        wrapped into ResponsePending frames and a script of sporadic faults (nothing / busyRepeatRequest)"""
+
+        def __init__(self, target, case):
+            super().__init__(target, parse_edges(case), case["rst"])
+            self.fam = case["fam"]
+            self.s3ms = case.get("s3ms", 0)
+            self.s3n = case.get("s3n", 0)
+            self.lk = {tuple(e) for e in case.get("lk", ())}
+            self.pn = case.get("pn", 0)
+            self.faults = list(case.get("fl", ()))
+            self.count = 0
+            self.unlocked = False
+            self.last = None       # virtual time at which the previous request was handled
+            self.queue = []
+
+        def _app(self, data, idle_ms):
+            """the application layer -> 'pos' / None / NRC number"""
+            sid = data[0]
+            is_ping = sid == 0x3E
+            if self.fam == "s3":
+                expired = self.cur != 1 and ((self.s3ms != 0 and idle_ms > self.s3ms) or
+                                             (self.s3n != 0 and not is_ping and self.count >= self.s3n))
+                if expired:
+                    self.cur, self.count = 1, 0
+            if sid == 0x10 and len(data) == 2:
+                u = data[1] & 0x7F
+                if self.fam == "locked" and (self.cur, u) in self.lk and not self.unlocked:
+                    return 0x33
+                a = self.edges.get((self.cur, u), "n18")
+                if a == "p":
+                    self.cur, self.count = u, 0
+                    return "pos"
+                self.count += 1
+                return None if a == "s" else int(a[1:])
+            if sid == 0x11 and len(data) == 2:
+                if self.rst == "p":
+                    self.cur, self.count, self.unlocked = 1, 0, False
+                    return "pos"
+                self.count += 1
+                return None if self.rst == "s" else int(self.rst[1:])
+            if is_ping:
+                self.count = 0
+                return "pos"
+            self.count += 1
+            return 0x11
+
+        async def write(self, data, timeout=None, tags=None):
+            if len(self.log) >= REQ_CAP:
+                raise TooManyRequests()
+            now = asyncio.get_event_loop().time()
+            self.log.append((data.hex(), self.cur, self.in_recover))
+            sid = data[0]
+            self.queue = []
+            idle_ms = 0 if self.last is None else int(round((now - self.last) * 1000))
+            self.last = now
+            if self.faults:
+                f = self.faults.pop(0)
+                if f == "s":
+                    return len(data)
+                if f == "b":
+                    self.queue = [bytes([0x7F, sid, 0x21])]
+                    return len(data)
+            code = data[1] & 0x7F if sid == 0x10 else data[1] if sid == 0x11 else 0 if sid == 0x3E else (data[0] << 8 | data[1])
+            npend = (self.cur + code) % (self.pn + 1)
+            r = self._app(data, idle_ms)
+            self.queue = [bytes([0x7F, sid, 0x78])] * npend
+            if r == "pos":
+                self.queue.append(bytes([0x50, data[1], 0x00, 0x32, 0x01, 0xF4]) if sid == 0x10 else
+                                  bytes([0x51, data[1]]) if sid == 0x11 else bytes([0x7E, 0x00]))
+            elif r is not None:
+                self.queue.append(bytes([0x7F, sid, r]))
+            return len(data)
+
+        async def read(self, timeout=None, tags=None):
+            if not self.queue:
+                await asyncio.sleep(timeout if timeout is not None else 3600.0)
+                raise asyncio.TimeoutError()
+            return self.queue.pop(0)
 
     class VecuTransport(GraphTransport, scheme="vecu"):
         """gallia's own virtual ECU (RandomUDSServer behind UDSServerTransport.handle_request) as the ECU"""
@@ -202,7 +291,7 @@ def _load_impl():
             return await super().get_session_transition(destination)
 
     _impl.update(SessionsScanner=SessionsScanner, SessionsScannerConfig=SessionsScannerConfig, ECU=ECU, HookedECU=HookedECU,
-                 GraphTransport=GraphTransport, VecuTransport=VecuTransport, TargetURI=TargetURI, DBStub=DBStub, RecDB=RecDB)
+                 GraphTransport=GraphTransport, VecuTransport=VecuTransport, StatefulTransport=StatefulTransport, TargetURI=TargetURI, DBStub=DBStub, RecDB=RecDB)
     return _impl
 
 
@@ -275,7 +364,9 @@ def run_impl(case, dbfile=None):
     sc.config = cfg
     sc.result = []
     sc.db_handler = m["DBStub"]() if dbfile is None else m["RecDB"](Path(dbfile))
-    if "vecu" in case:
+    if "fam" in case:
+        tr = m["StatefulTransport"](m["TargetURI"]("stateful://ecu"), case)
+    elif "vecu" in case:
         tr = m["VecuTransport"](m["TargetURI"]("vecu://ecu"), make_vecu(*case["vecu"]))
     else:
         gh = None if case.get("gh") is None else {(int(k.split(">")[0]), int(k.split(">")[1])): v for k, v in case["gh"].items()}
@@ -404,6 +495,32 @@ def scan_line(case):
             f"rst={case['rst']} g={_edges_str(case)}" + _hook_fields(case))
 
 
+def scans_line(case):
+    """the same case for the stateful model `scanS` (Model/SessionScanS.lean)"""
+    out = "scans" + scan_line(case)[4:] + f" fam={case.get('fam', 'graph')} pb={case.get('boot', 0) + 2}"
+    if case.get("s3ms"):
+        out += f" s3ms={case['s3ms']}"
+    if case.get("s3n"):
+        out += f" s3n={case['s3n']}"
+    if case.get("lk"):
+        out += " lk=" + ",".join(f"{a}>{b}" for a, b in case["lk"])
+    if case.get("pn"):
+        out += f" pn={case['pn']}"
+    if case.get("fl"):
+        out += " fl=" + ",".join(case["fl"])
+    return out
+
+
+def eff_case(case):
+    """the graph a tester that never unlocks the ECU sees (locked edges answer securityAccessDenied)"""
+    if not case.get("lk"):
+        return case
+    g = dict(case["g"])
+    for a, b in case["lk"]:
+        g[f"{a}>{b}"] = "n51"
+    return {**case, "g": g}
+
+
 def spec_line(case, impl):
     # the positive rows are the first len(result) rows the scanner wrote
     rep = ";".join(f"{s}@{'.'.join(map(str, st))}" for s, st in impl["rows"][: len(impl["result"])]) or "-"
@@ -428,6 +545,7 @@ def parse_model(line):
         "rows": rows(kv["trans"], 2) + rows(kv["neg"], 3),
         "reqs": kv["reqs"].split(",") if kv["reqs"] else [],
         "cur": int(kv["cur"]),
+        "client": int(kv.get("client", kv["cur"])),
         "track": kv["track"],
     }
 
@@ -452,8 +570,12 @@ def in_class(case):
 
 def judge(case, impl, model, spec):
     """-> list of (cls, what, spec_violated)"""
+    if "fam" in case:
+        return judge_s(case, impl, model, spec)
     out = []
     skip = set(case["skip"])
+    if model.get("twin"):
+        out.append(("tie:scanS-vs-scan", f"the stateful model over the graph oracle differs from the graph model: {model['twin']}", False))
     # --- the property's own statement on the implementation's behaviour ---------------------------------
     if impl["exit"] in ("stall", "cap"):
         out.append(("no-termination", f"the scan does not terminate ({impl['exit']})", True))
@@ -507,9 +629,165 @@ def judge(case, impl, model, spec):
     return out
 
 
+def fault_runs_bounded(case):
+    """no request meets more than max_retry faults in a row (then its last transmission is handled)"""
+    run = 0
+    for f in case.get("fl", ()):
+        run = run + 1 if f in ("s", "b") else 0
+        if run > case["max_retry"]:
+            return False
+    return True
+
+
+def closure(case):
+    e = parse_edges(case)
+    seen, todo = {1}, [1]
+    while todo:
+        a = todo.pop()
+        for (x, b), v in e.items():
+            if x == a and v == "p" and b not in seen:
+                seen.add(b)
+                todo.append(b)
+    return seen
+
+
+def request_bound(case):
+    """`scanBound c depth 1 1` of requests_bounded (Proofs/C09.lean): sum over levels j of 127^(j-1) stacks * 127 probes *
+    perProbe c j"""
+    n_hook = len(case.get("pre", ())) + len(case.get("post", ()))
+    mr = case["max_retry"] + 1
+    pb = case.get("boot", 0) + 2
+    return sum(127 ** (j - 1) * 127 * ((mr + pb) + (j + 1) * (mr * (2 + n_hook))) for j in range(1, case["depth"] + 1))
+
+
+def judge_s(case, impl, model, spec):
+    """stateful ECU families -> list of (cls, what, spec_violated)"""
+    out = []
+    skip = set(case["skip"])
+    fam = case["fam"]
+    if impl["exit"] in ("stall", "cap"):
+        return [("no-termination", f"the scan does not terminate ({impl['exit']})", True)]
+    hookp = {f"{x:04x}" for x in list(case.get("pre", ())) + list(case.get("post", ()))}
+    for (pdu, flag) in zip(impl["reqs"], impl["recover_flags"]):
+        p = pdu.split("@")[0]
+        if p.startswith("10") and len(p) == 4:
+            t = int(p[2:4], 16)
+            if t in skip and not (t == 1 and flag):
+                out.append(("skipped-session-requested:non-default-session:" + ("stack-recovery" if flag else "probe"),
+                            f"session {t:#04x} is in --skip but `{p}` was sent", True))
+                break
+            if not 1 <= t <= 0x7F:
+                out.append(("foreign-request", f"`{p}` is not a session change to 1..0x7f", False))
+                break
+        elif not ((p[:2] == "11" and case["reset"] and int(p[2:4], 16) == case["reset"]) or (p == "3e00" and case["reset"])
+                  or (p in hookp and case["hooks"])):
+            out.append(("foreign-request", f"`{p}` on the wire: not a session change, and no reset / ping / hook request "
+                                           "that the options ask for", False))
+            break
+    if len(impl["reqs"]) > request_bound(case):
+        out.append(("request-bound", f"{len(impl['reqs'])} requests, proved bound {request_bound(case)}", False))
+    if impl["exit"] == "0":
+        if fam in ("graph", "locked") and fault_runs_bounded(case):
+            # exactly the sessions reachable (without unlocking), whatever the pending frames and the sporadic faults
+            if impl["result"] != spec["reach"]:
+                missing = sorted(set(spec["reach"]) - set(impl["result"]))
+                extra = sorted(set(impl["result"]) - set(spec["reach"]))
+                out.append((f"reported-set:{fam}:" + ("missing" if missing else "") + ("extra" if extra else "") +
+                            ("" if missing or extra else "order"),
+                            f"reported {impl['result']} but reachable within depth {case['depth']} "
+                            f"{'without unlocking ' if fam == 'locked' else ''}is {spec['reach']} although no request met more "
+                            f"than max_retry={case['max_retry']} faults", True))
+            if spec["bad"]:
+                out.append(("reported-stack-invalid", f"reported stacks that do not lead there: {spec['bad']}", True))
+        else:
+            extra = sorted(set(impl["result"]) - closure(case))
+            if extra:
+                out.append(("reported-set:unreachable", f"reported {extra}: no sequence of session changes leads there", True))
+    elif impl["exit"] == "1":
+        if fam in ("graph", "locked") and fault_runs_bounded(case) and in_class(eff_case(case)):
+            out.append(("exit-1-in-class", "scan gave up (exit 1) although every session can re-enter the default session "
+                                           "and no request met more than max_retry faults", True))
+        if impl["result"]:
+            out.append(("exit-1-with-report", f"exit 1 but reported {impl['result']}", True))
+    else:
+        out.append(("escaped:" + impl["exit"], f"the scan ended with {impl['exit']}", False))
+    if model["track"] != "1" and fam != "s3":
+        out.append(("model-state-tracking", "model probes outside the stack top", False))
+    for f, mf in (("exit", "exit"), ("result", "result"), ("rows", "rows"), ("reqs", "reqs"), ("ecu_session", "cur"),
+                  ("client_session", "client")):
+        if impl[f] != model[mf]:
+            if f == "reqs":
+                i = next((k for k, (a, b) in enumerate(zip(impl[f], model[mf])) if a != b), min(len(impl[f]), len(model[mf])))
+                what = (f"request sequence differs at #{i}: impl={impl[f][i] if i < len(impl[f]) else 'end'} "
+                        f"model={model[mf][i] if i < len(model[mf]) else 'end'} (impl {len(impl[f])} requests, model {len(model[mf])})")
+            else:
+                what = f"{f}: impl={impl[f]} model={model[mf]}"
+            out.append((f"tie:{fam}:" + f, what, False))
+            break
+    return out
+
+
 # ------------------------------------------------------------------------------------------------------------
 # generation
 # ------------------------------------------------------------------------------------------------------------
+def rand_case_s(rng):
+    """a stateful ECU family on top of a random session graph -> (case, label)"""
+    shape = rng.choice(["density", "chain", "chain", "cycle", "deep-only", "deep-only"])
+    g, ids = rand_graph(rng, shape)
+    g = decorate(rng, g, ids, rng.random() < 0.9)
+    kind = rng.choice(["s3-count", "s3-time", "s3-both", "locked", "locked", "pending", "faults", "faults", "pending+faults",
+                       "locked+faults", "s3+faults"])
+    reset = rng.choice([None, None, None, None, 1, 3])
+    pre, post = (), ()
+    hooks = rng.random() < 0.3
+    if hooks and rng.random() < 0.7:
+        reqs = rng.sample(HOOK_REQS, rng.randint(1, 2))
+        cut = rng.randint(0, len(reqs))
+        pre, post = reqs[:cut], reqs[cut:]
+        for _ in range(rng.randint(1, 3)):   # something for the hooked attempt to be tried on
+            g[(rng.choice(ids), rng.choice(ids[1:]))] = "n34"
+    sk = rng.random()
+    skip = [] if sk < 0.6 else rng.sample(ids[1:], min(len(ids) - 1, rng.randint(1, 2))) + rng.sample(range(2, 0x80), rng.randint(0, 2))
+    case = mk_case(g, rng.choice([1, 2, 3, 3, 4]), skip, thorough=rng.random() < 0.25, reset=reset, hooks=hooks,
+                   max_retry=rng.choice([0, 1, 2]), rst=rng.choice(["p", "p", "p", "n34", "s"]), pre=pre, post=post)
+    case["fam"] = "s3" if kind.startswith("s3") else "locked" if kind.startswith("locked") else "graph"
+    if kind in ("s3-count", "s3-both", "s3+faults"):
+        case["s3n"] = rng.choice([1, 2, 3, 5, 8, 13, 40, 130, 300])
+    if kind in ("s3-time", "s3-both"):
+        case["s3ms"] = rng.choice([300, 700, 2100, 2300, 4500, 19000])
+        for _ in range(rng.randint(1, 4)):   # time only passes on unanswered requests, back-off and pings
+            a, b = rng.choice(ids), rng.choice(ids + [rng.randint(2, 0x7F)])
+            if case["g"].get(f"{a}>{b}") != "p":
+                case["g"][f"{a}>{b}"] = rng.choice(["s", "s", "n33"])
+    if case["fam"] == "locked":
+        pos = [tuple(map(int, k.split(">"))) for k, v in case["g"].items() if v == "p" and not k.endswith(">1")]
+        case["lk"] = sorted(rng.sample(pos, min(len(pos), rng.randint(1, 3))))
+    if "pending" in kind or rng.random() < 0.15:
+        case["pn"] = rng.choice([1, 2, 3, 5])
+    if "faults" in kind:
+        n = rng.choice([3, 10, 40, 150, 400])
+        p = rng.choice([0.05, 0.15, 0.3])
+        fl = []
+        for _ in range(n):
+            f = rng.choice(["s", "b"]) if rng.random() < p else "-"
+            if f != "-" and rng.random() < 0.8:   # mostly within the retry bound
+                run = 0
+                for x in reversed(fl):
+                    if x == "-":
+                        break
+                    run += 1
+                if run >= case["max_retry"]:
+                    f = "-"
+            fl.append(f)
+        while fl and fl[-1] == "-":
+            fl.pop()
+        case["fl"] = fl
+    if case["thorough"] and n_walks(case, 25) > 25:
+        case["thorough"] = False
+    return case, "stateful:" + kind
+
+
+
 def n_walks(case, limit):
     """number of positive walks of length <= depth from 1 avoiding skipped targets (cost of --thorough)"""
     e = parse_edges(case)
@@ -685,8 +963,14 @@ def exhaustive_cases(ids, depth, **kw):
 # ------------------------------------------------------------------------------------------------------------
 def evaluate(ctx, cases, procs=1):
     impls = run_impl_many(cases, procs)
-    models = [parse_model(l) for l in ctx.lean([scan_line(c) for c in cases])]
-    specs = [parse_spec(l) for l in ctx.lean([spec_line(c, i) for c, i in zip(cases, impls)])]
+    models = [parse_model(l) for l in ctx.lean([scans_line(c) if "fam" in c else scan_line(c) for c in cases])]
+    specs = [parse_spec(l) for l in ctx.lean([spec_line(eff_case(c), i) for c, i in zip(cases, impls)])]
+    # the graph ECU as a stateful oracle: `scanS` over `graphOracle` must be `scan` (scan_simulates_graph), line by line
+    twin = [k for k, c in enumerate(cases) if "fam" not in c and not c.get("start")]
+    for k, l in zip(twin, ctx.lean([scans_line(cases[k]) for k in twin])):
+        m2 = parse_model(l)
+        if any(m2[f] != models[k][f] for f in ("exit", "result", "rows", "reqs", "cur")):
+            models[k]["twin"] = {f: m2[f] for f in ("exit", "result", "rows", "cur")} | {"reqs": m2["reqs"][:40]}
     return impls, models, specs
 
 
@@ -706,9 +990,16 @@ def shrink(ctx, case, cls):
         for f, v in (("thorough", False), ("hooks", False), ("reset", None), ("max_retry", 0), ("rst", "p")):
             if cur[f] != v:
                 cands.append({**cur, f: v})
-        for f in ("boot", "post", "pre", "gh"):
+        for f in ("boot", "post", "pre", "gh", "pn", "s3ms", "s3n", "fl"):
             if cur.get(f):
                 cands.append({k: v for k, v in cur.items() if k != f})
+        if cur.get("fl"):
+            for n in range(len(cur["fl"])):
+                cands.append({**cur, "fl": cur["fl"][:n] + cur["fl"][n + 1:]})
+                if cur["fl"][n] != "-":
+                    cands.append({**cur, "fl": cur["fl"][:n] + ["-"] + cur["fl"][n + 1:]})
+        for e in cur.get("lk", ()):
+            cands.append({**cur, "lk": [x for x in cur["lk"] if x != e]})
         for k in sorted(cur.get("gh") or {}, key=lambda k: tuple(map(int, k.split(">")))):
             cands.append({**cur, "gh": {a: b for a, b in cur["gh"].items() if a != k}})
         for d in range(1, cur["depth"]):
@@ -743,7 +1034,8 @@ def case_key(case):
             f"d{h['depth']},skip={_csv(h['skip'])},th={int(h['thorough'])},hk={int(h['hooks'])}" for h in case["db_history"]))
     return (f"d={case['depth']};skip={_csv(case['skip'])};th={int(case['thorough'])};rs={case['reset']};"
             f"hk={int(case['hooks'])};mr={case['max_retry']};rst={case['rst']};g={_edges_str(case)}"
-            + _hook_fields(case).replace(" ", ";") + hist)
+            + _hook_fields(case).replace(" ", ";") + hist
+            + (";" + scans_line(case).split(" fam=")[1].replace(" ", ";") if "fam" in case else ""))
 
 
 def db_sequence(rng):
@@ -842,6 +1134,18 @@ def run(ctx):
         for n, c in enumerate(seq):
             add(c, f"{label}:scan-{n + 1}")
 
+    # 5. stateful ECUs (Model/SessionScanS.lean): S3 timer by request count / virtual time, security-locked transitions,
+    #    ResponsePending before the reply, sporadic busyRepeatRequest / lost requests with max_retry 0..2
+    add({**mk_case({(1, 1): "p", (1, 2): "p", (2, 1): "p", (2, 3): "p", (3, 1): "p", (1, 4): "n18"}, 3), "fam": "s3", "s3n": 2},
+        "stateful:corner:s3-count-loses-3")
+    add({**mk_case({(1, 1): "p", (1, 2): "p", (2, 1): "p", (2, 3): "p", (3, 1): "p"}, 3), "fam": "locked", "lk": [(2, 3)]},
+        "stateful:corner:locked-2-3")
+    add({**mk_case({(1, 1): "p", (1, 2): "p", (2, 1): "p", (2, 3): "p", (3, 1): "p"}, 3, max_retry=1), "fam": "graph", "pn": 2,
+         "fl": ["-", "s", "-", "b", "-", "-", "s"]}, "stateful:corner:pending+faults")
+    for _ in range(ctx.pick(260, 4000)):
+        c, label = rand_case_s(rng)
+        add(c, label)
+
     impls, models, specs = evaluate(ctx, cases, procs)
     seen_cls = {}
     for case, label, impl, model, spec in zip(cases, labels, impls, models, specs):
@@ -900,14 +1204,27 @@ MANIFEST = {
                    "termination, state tracking before every probe, skipped sessions never requested (except the default "
                    "session during stack recovery: witness theorem + known finding), thorough mode and --reset report the same set, "
                    "--with-hooks only adds sessions. "
+                   "Generalised to arbitrary STATEFUL ECUs (Model/SessionScanS.lean: `step : state -> idle ms -> request -> state x "
+                   "reply`, every transmission of request_unsafe a step, ResponsePending frames, hook requests through "
+                   "request_unsafe, the pings of wait_for_ecu up to its budget, the client's own session state): the stateful scan "
+                   "of every GraphLike ECU is the graph scan (scan_simulates_graph, with soundness / completeness / exactness as "
+                   "corollaries; the graph ECU run step by step and the security-locked ECU are instances: "
+                   "scan_exact_locked_subgraph); ResponsePending is transparent (scan_pending_transparent); for ANY ECU the wire "
+                   "carries only probes to non-skipped sessions, recovery DSCs, reset + pings under --reset and the hook requests "
+                   "under --with-hooks (requests_only_dsc_reset_ping_hooks, skip_not_requested_any) and at most "
+                   "sum_j 127^j * perProbe(j) requests (requests_bounded); the written rows are characterised (rows_match_report); "
+                   "under an S3 session timeout completeness and the reported stack fail (witness theorems). "
                    "Tied to the code by running the real SessionsScanner.main() with a real ECU/UDSClient on an in-process "
                    "graph ECU under virtual time and comparing result, written session_transition rows, exit status, final "
                    "session and the exact request sequence seen by the ECU; the specification is evaluated on what the real "
-                   "scanner reported."),
+                   "scanner reported. Stateful families (S3 timer by request count and by virtual time, security-locked "
+                   "transitions, ResponsePending frames, scripted busyRepeatRequest / lost requests, max_retry 0..2, hooks, "
+                   "reset) drive the real scanner against the stateful model on result, rows, exit, ECU and client session and "
+                   "the exact wire trace; every graph case is also run through the stateful model (twin check)."),
     "level_note": ("Trusted: Lean kernel (axioms propext, Quot.sound, Classical.choice), the harness and its graph ECU, the "
                    "virtual-time loop. The ECU class is a deterministic session graph (answers depend on the current "
                    "session and on whether the session hook preceded the request); responsePending handling belongs to C04; OEM "
                    "hooks are request lists."),
-    "technique": "Lean 4 proof (invariants over nested folds, BFS completeness) + differential correspondence against the real scanner",
+    "technique": "Lean 4 proof (invariants over nested folds, BFS completeness, layer-by-layer simulation of the graph model by the stateful model) + differential correspondence against the real scanner",
     "design_ref": "DESIGN.md section 7, C09",
 }
